@@ -142,6 +142,9 @@ def build_driver():
 
 
 # ----------------------------------------------------------------------------- transcripts
+STEP_TIMEOUT = int(os.environ.get("VERIF_STEP_TIMEOUT", "2400"))
+
+
 def run_programs(workdir, programs, shards=16):
     """programs: list of lists of case s-expressions (first element = id, unique over the run).
     Returns list of (case_id, call, impl_result, model_result, aux)."""
@@ -161,7 +164,12 @@ def run_programs(workdir, programs, shards=16):
         tpath = os.path.join(workdir, "tr_%d.txt" % s)
         procs.append((subprocess.Popen([HARNESS_BIN, path], stdout=open(tpath, "w"), stderr=subprocess.PIPE), tpath))
     for p, tpath in procs:
-        _, err = p.communicate(timeout=3600)
+        try:
+            _, err = p.communicate(timeout=STEP_TIMEOUT)
+        except subprocess.TimeoutExpired:
+            for q, _ in procs:
+                q.kill()
+            raise RuntimeError("harness did not finish within %d s on %s" % (STEP_TIMEOUT, tpath))
         if p.returncode != 0:
             raise RuntimeError("harness crashed (exit %s) on %s: %s" % (p.returncode, tpath, err.decode()[-2000:]))
     mprocs = []
@@ -171,7 +179,13 @@ def run_programs(workdir, programs, shards=16):
                                         stdout=open(mpath, "w"), stderr=subprocess.PIPE), tpath, mpath))
     out = []
     for p, tpath, mpath in mprocs:
-        _, err = p.communicate(timeout=3600)
+        try:
+            _, err = p.communicate(timeout=STEP_TIMEOUT)
+        except subprocess.TimeoutExpired:
+            for q, _, _ in mprocs:
+                q.kill()
+            subprocess.run(["pkill", "-f", DRIVER_BIN + " " + workdir])
+            raise RuntimeError("model driver did not finish within %d s on %s" % (STEP_TIMEOUT, tpath))
         if p.returncode != 0:
             raise RuntimeError("model driver crashed (exit %s) on %s: %s" % (p.returncode, tpath, err.decode()[-2000:]))
         with open(tpath) as tf, open(mpath) as mf:
